@@ -128,6 +128,7 @@ def find_anchor(lines, anchor, within):
 
 
 BEGIN_MARK = "// ==== VERIF-INJECTED (cfg(kani) only) ===="
+EXTRACTED = []   # blocks extracted verbatim from the real source into harness functions (reported in the evidence)
 
 
 def inject(scratch, prop, pid):
@@ -168,6 +169,20 @@ def inject(scratch, prop, pid):
                 def inc(mo):
                     return open(os.path.join(VERIF, mo.group(1))).read()
                 src = re.sub(r"^//@include\s+(\S+)\s*$", inc, src, flags=re.M)
+                # mechanical extraction of an inline block of the real source:  //@extract <file> <<first line marker>> <<end marker>>
+                # is replaced by the text strictly between the (unique) line containing the first marker and the (unique) line containing
+                # the end marker, verbatim (token-identical to what runs; re-extracted on every run; a lost marker is exit 2)
+                def ext(mo):
+                    rel, a, b = mo.group(1), mo.group(2), mo.group(3)
+                    lines_ = open(os.path.join(REPO, rel)).read().split("\n")
+                    ia = [i for i, l in enumerate(lines_) if a in l]
+                    ib = [i for i, l in enumerate(lines_) if b in l]
+                    if len(ia) != 1 or len(ib) != 1 or ib[0] <= ia[0]:
+                        raise Undecided(f"lost anchor: extraction markers `{a}` / `{b}` matched {len(ia)} / {len(ib)} lines in {rel}")
+                    text = "\n".join(lines_[ia[0] + 1:ib[0]])
+                    EXTRACTED.append(dict(file=rel, from_marker=a, to_marker=b, lines=ib[0] - ia[0] - 1, sha256=hashlib.sha256(text.encode()).hexdigest()))
+                    return "// ---- extracted verbatim from " + rel + "\n" + text + "\n// ---- end of extraction"
+                src = re.sub(r"^\s*//@extract\s+(\S+)\s+<<(.*?)>>\s+<<(.*?)>>\s*$", ext, src, flags=re.M)
                 src = expand_chunks(src)
                 modname = m.modname or f"__verif_{pid.lower()}"
                 out += f"#[cfg(kani)]\n#[allow(unused, non_snake_case)]\npub(crate) mod {modname} {{\n{src}\n}}\n"
@@ -419,7 +434,7 @@ def native_replay(scratch, h, res, prop, pid):
     target = None
     for m in prop.MODULES:
         src = expand_chunks(open(os.path.join(VERIF, m.harness)).read())
-        if re.search(r"fn\s+" + re.escape(h.name) + r"\s*\(", src):
+        if re.search(r"fn\s+" + re.escape(h.name) + r"\s*\(", src) or (target is None and re.search(r"\b" + re.escape(h.name) + r"\b", src)):
             target = m
     if target is None:
         return None
@@ -698,7 +713,8 @@ def write_evidence(pid, prop, tier, seed, harnesses, results, extra, scan, cg, n
         exhaustive=False,
     )
     ev = dict(property_id=pid, tier=tier, seed=seed, level=level, coverage=cov,
-              assumptions=list(getattr(prop, "ASSUMPTIONS", [])) + ["scan of injected text: " + s for s in scan],
+              assumptions=list(getattr(prop, "ASSUMPTIONS", [])) + ["scan of injected text: " + s for s in scan] +
+                          [f"mechanical extraction: {e['lines']} lines of {e['file']} between `{e['from_marker']}` and `{e['to_marker']}` (sha256 {e['sha256'][:16]}) wrapped verbatim into a harness function" for e in EXTRACTED],
               wall_s=round(wall, 1), violations=nviol)
     os.makedirs(os.path.join(VERIF, "evidence"), exist_ok=True)
     json.dump(ev, open(os.path.join(VERIF, "evidence", pid + ".json"), "w"), indent=1)
